@@ -1469,7 +1469,15 @@ func c06gen(c *h.Ctx, yield func(*h.Case)) {
 			t = ro.GenerateBigNaryTree(N, nodes)
 		}
 		t.Root.Visit(0, func(d int, tn *onet.TreeNode) {
-			pos = append(pos, tn.RosterIndex)
+			// the position of the node's server in the roster, looked up here (not the RosterIndex the
+			// generator wrote: the generators are C12's subject; what C06 needs from them is a shape)
+			p := tn.RosterIndex
+			for i, si := range ro.List {
+				if si == tn.ServerIdentity {
+					p = i
+				}
+			}
+			pos = append(pos, p)
 			ar = append(ar, len(tn.Children))
 		})
 		return
